@@ -22,7 +22,7 @@ ASSUMPTIONS = [
     "the quantifier over class hierarchies is a fixed corpus (f0-f7 variants + the grammars shipped in geml.grammars that import offline); classes cannot be symbolic",
     "inner quantifiers are the solver's: a harness-side decider that may pick ANY alternative drives the real create_node with symbolic draws; depth >= reported minimum on every path up to D = min+2, a witness path with depth == reported minimum, a witness of self-containment for every symbol reported recursive and absence up to D for the others",
     "the oracle's own least-fixpoint analysis (vf/oracles/grammar.py) is compared with the reported tables for every symbol (concrete comparison)",
-    "default counting mode (expansion_depthing=False)",
+    "both counting modes for the table comparison (expansion_depthing=False/True); the solver-backed derivation obligations use the default mode",
 ]
 
 
@@ -66,10 +66,12 @@ def h_tables(ctx: Ctx, cfg):
     """productions, minimum depths, recursive set, reachable symbols vs the oracle (concrete)"""
     fx, gfn = _fx(cfg)
 
+    exp = bool(cfg.get("expansion_depthing"))
+
     def work():
-        g = gfn()
-        a = OG.Analysis(fx.CLASSES, fx.START)
-        return g, a, OG.Analysis(fx.CLASSES, fx.START, lists_transparent_nonempty=True)
+        g = gfn(expansion_depthing=True) if exp else gfn()
+        a = OG.Analysis(fx.CLASSES, fx.START, expansion_depthing=exp)
+        return g, a, OG.Analysis(fx.CLASSES, fx.START, expansion_depthing=exp, lists_transparent_nonempty=True)
 
     g, a, a_ne = ctx.concrete(work)
     ctx.reached()
@@ -226,6 +228,7 @@ def obligations(tier: str):
         if var:
             cfg["variant"] = var
         obs.append(Ob("tables", dict(cfg), name=f"tables_{tag}", timeout=60, smoke=1))
+        obs.append(Ob("tables", dict(cfg, expansion_depthing=True), name=f"tables_expdepth_{tag}", timeout=60, smoke=1))
         obs.append(Ob("usable", dict(cfg), name=f"usable_{tag}", timeout=60, smoke=1))
     obs.append(Ob("usable", {"fixture": "f4", "grammar_fn": "grammar_with_unreachable"}, name="usable_f4_drops_unreachable", timeout=60, smoke=1))
     obs.append(Ob("shipped", {"roots": ["tests"], "at_least": 20}, name="tables_shipped_tests", timeout=200, smoke=0, twin=False))
